@@ -31,6 +31,10 @@ PAGE_DIR = {"module": "module", "submodule": "module", "program": "program", "bl
             "file": "sourcefile", "type": "type", "namelist": "namelist", "proc": "proc",
             "interface": "interface", "absinterface": "interface"}
 ANCHOR = {"variable": "variable", "bound": "boundprocedure", "final": "finalproc", "common": "common", "proc": "proc"}
+# kinds whose pages may share a name with another page of the same directory (FORD then numbers the
+# pages `name~2.html` ...): procedures / programs / block data of different executables, types and
+# interfaces of different modules.  Modules (ancestor lookup by name) and namelists (located by name) stay unique.
+DUP_PAGE_DIRS = {"proc", "program", "type", "interface", "blockdata"}
 
 
 class Gen:
@@ -41,6 +45,7 @@ class Gen:
         self.used = []         # names used so far (declared spelling)
         self.page_names = {}   # dir -> set(lower names)
         self.n = 0
+        self.dup = 0.5         # probability of accepting a name that already has a page in the same directory
 
     def spell(self, name):
         r = self.rng.random()
@@ -64,7 +69,8 @@ class Gen:
             if nm in sib:
                 continue
             if page_dir is not None and nm in self.page_names.setdefault(page_dir, set()):
-                continue
+                if not (page_dir in DUP_PAGE_DIRS and self.rng.random() < self.dup):
+                    continue
             if page_dir is not None:
                 self.page_names[page_dir].add(nm)
             nm = self.spell(nm)
@@ -78,8 +84,9 @@ class Gen:
             page_dir = None
         if kind == "type" and scope is not None and scope["kind"] == "proc":
             page_dir = None
+        collide = kw.pop("collide", 0.45)
         if name is None:
-            name = self.name(scope, page_dir)
+            name = self.name(scope, page_dir, collide)
         e = {"kind": kind, "name": name, "scope": scope, "kids": [], "perm": "public", "id": len(self.all),
              "page_dir": page_dir, "internal": False, "doc": []}
         e.update(kw)
@@ -89,8 +96,8 @@ class Gen:
         return e
 
     # ------------------------------------------------------------------ units
-    def proc(self, scope, depth=0, internal=False):
-        p = self.ent("proc", scope, proctype=self.rng.choice(["subroutine", "function"]), internal=internal)
+    def proc(self, scope, depth=0, internal=False, collide=0.45):
+        p = self.ent("proc", scope, proctype=self.rng.choice(["subroutine", "function"]), internal=internal, collide=collide)
         for _ in range(self.rng.choice([0, 1, 1, 2])):
             self.ent("variable", p, role="arg", internal=False)
         for _ in range(self.rng.choice([0, 0, 1, 2])):
@@ -148,9 +155,13 @@ class Gen:
             P["files"].append(f)
         for i in range(rng.choice([1, 2, 2, 3])):
             self.module(rng.choice(P["files"]))
+        # program units and external procedures: every file may hold its own program plus helpers, and the
+        # helpers of different files (different executables) may carry the same names
         f0 = rng.choice(P["files"])
-        if rng.random() < 0.6:
-            pr = self.ent("program", f0)
+        for f in P["files"]:
+            if not (rng.random() < (0.6 if f is f0 else 0.35)):
+                continue
+            pr = self.ent("program", f, collide=0.6)
             for _ in range(rng.choice([0, 1, 2])):
                 self.ent("variable", pr, role="modvar")
             if rng.random() < 0.5:
@@ -158,8 +169,8 @@ class Gen:
             if rng.random() < 0.4:
                 nl = self.ent("namelist", pr)
                 nl["vars"] = [k["name"] for k in pr["kids"] if k["kind"] == "variable"][:2] or ["zz"]
-        for _ in range(rng.choice([0, 1, 1, 2])):
-            self.proc(rng.choice(P["files"]))
+        for _ in range(rng.choice([0, 1, 1, 2]) + (len(P["files"]) - 1)):
+            self.proc(rng.choice(P["files"]), collide=0.7)
         if rng.random() < 0.3:
             bd = self.ent("blockdata", rng.choice(P["files"]))
             c = self.ent("common", bd)
@@ -356,13 +367,22 @@ def page_holder(e):
     return e
 
 
+def file_of(e):
+    while e["scope"] is not None:
+        e = e["scope"]
+    return e
+
+
 def expected_url(e):
     """(path relative to the site root, anchor regex or None) according to the documented site layout"""
     h = page_holder(e)
     if h["kind"] == "file":
         path = f"sourcefile/{h['name'].lower()}.html"
     else:
-        path = f"{h['page_dir']}/{h['name'].lower()}.html"
+        # the page's file name is the entity's identifier: the lower-cased name, numbered (`~2` ...) when
+        # several pages of one directory share it (which number an entity gets is property C10's business;
+        # the harness records the identifier FORD gave to the entity at this position as `page_name`)
+        path = f"{h['page_dir']}/{h.get('page_name') or h['name'].lower()}.html"
     if h is e:
         return path, None
     x = e
@@ -373,12 +393,12 @@ def expected_url(e):
     return path, re.compile("^" + re.escape(ANCHOR[e["kind"]] + "-" + e["name"].lower()) + r"(~\d+)?$")
 
 
-def contents(e):
+def contents(e, designated=True):
     """visible entities declared directly in `e` (what a reader finds on e's page under e)"""
     out = [k for k in e["kids"] if k["visible"]]
     if e["kind"] == "interface":
         out = out + [p for p in e["modprocs"] if p["visible"]]
-    if e["kind"] in ("bound", "final") and e["target"]["visible"]:
+    if designated and e["kind"] in ("bound", "final") and e["target"]["visible"]:
         out = out + [e["target"]]     # the procedure a binding designates
     return out
 
@@ -403,6 +423,13 @@ def item_kind_ok(e, q):
     if e["kind"] == "proc":
         return q == e["proctype"]
     return q in ITEM_KINDS.get(e["kind"], [])
+
+
+def item_kind_ok_in(comp, e, q):
+    """item kind `q` for item `e` of component `comp`; "modproc" = module procedure of a generic interface"""
+    if q is not None and q.lower() == "modproc":
+        return comp["kind"] == "interface" and any(e is p for p in comp["modprocs"])
+    return item_kind_ok(e, q)
 
 
 def comp_kind_ok(e, q):
@@ -439,7 +466,26 @@ def grey_names(e):
 
 def spec(P, ctx, ref):
     """Documented lookup.  Returns ('text', None) | ('link', [acceptable abstract entities], fallback_ok)
-    | ('unspecified', why)."""
+    | ('unspecified', why).
+
+    A type-bound / final procedure *designates* a procedure, it does not declare it, and the user guide
+    gives no item kind for "the procedure of a binding": for a bare name the designated procedure counts
+    as the binding's own contents; with a kind qualifier both readings are accepted (the designated
+    procedure, or what the lookup gives when a binding has no contents of that kind)."""
+    s1 = _spec(P, ctx, ref, True)
+    if ref[1] is None or ctx is None or ctx["kind"] not in ("bound", "final") or s1[0] == "unspecified":
+        return s1
+    s2 = _spec(P, ctx, ref, False)
+    if s1 == s2 or s2[0] == "unspecified":
+        return s1
+    if s1[0] == "text":
+        return s2
+    if s2[0] == "text":
+        return ("link", s1[1], True)
+    return ("link", s1[1] + [t for t in s2[1] if not any(t is u for u in s1[1])], s1[2] or s2[2])
+
+
+def _spec(P, ctx, ref, designated):
     name, kind, child, ckind = ref
     lname = name.lower()
     if ctx is not None and ctx.get("role") == "common":
@@ -458,7 +504,7 @@ def spec(P, ctx, ref):
                 return ("unspecified", "variable of a common block / namelist group seen from outside the block")
     levels = []
     if ctx is not None:
-        levels.append(("local", contents(ctx)))
+        levels.append(("local", contents(ctx, designated)))
         if ctx["scope"] is not None:
             levels.append(("local", contents(ctx["scope"])))
     levels.append(("project", project_wide(P)))
@@ -487,7 +533,7 @@ def spec(P, ctx, ref):
     for lk, ents in levels:
         c = comps(lk, ents)
         if c:
-            items = [k for e in c for k in contents(e) if k["name"].lower() == child.lower() and item_kind_ok(k, ckind)]
+            items = [k for e in c for k in contents(e) if k["name"].lower() == child.lower() and item_kind_ok_in(e, k, ckind)]
             found.append((c, items))
     if not found:
         return ("text", None)
@@ -522,6 +568,11 @@ def spellings(rng, t, hidden_or_absent=False):
             out.append((case(t["name"]), q if rng.random() < 0.8 else q.upper(), None, None))
     else:
         out.append((case(t["name"]), None, None, None))
+    if t["kind"] == "interface":
+        # the module procedures of a generic interface are items of it (item kind "modproc")
+        for p in t["modprocs"]:
+            out.append((case(t["name"]), None, case(p["name"]), None))
+            out.append((case(t["name"]), None, case(p["name"]), "modproc"))
     sc = t["scope"]
     if sc is not None and sc["kind"] != "file":
         iq = [t["proctype"]] if t["kind"] == "proc" else ITEM_KINDS.get(t["kind"], [])
